@@ -566,7 +566,7 @@ func (ego *object) MapAsync(function func(string, any) any) Object {
 }
 
 func (ego *object) GetTF(tf string) any {
-	if len(tf) < 2 || tf[0] != '.' {
+	if len(tf) < 2 || tf[0] != '.' || tf[1] == '.' || tf[1] == '#' {
 		panic(fmt.Sprintf("'%s' is not a valid tree form for an object", tf))
 	}
 	tf = tf[1:]
@@ -640,7 +640,7 @@ func (ego *object) UnsetTF(tf string) Object {
 }
 
 func (ego *object) TypeOfTF(tf string) Type {
-	if len(tf) < 2 || tf[0] != '.' {
+	if len(tf) < 2 || tf[0] != '.' || tf[1] == '.' || tf[1] == '#' {
 		return TypeUndefined
 	}
 	tf = tf[1:]
